@@ -148,6 +148,12 @@ def plan(tier, seed):
             for L in range(1, 82):
                 add(nst_, nsol_, True, 'LU'[L % 2], 'e', 'none-and-first', velocity=(L % 5 == 0), zeros=(L % 7 == 0))
                 files[-1]['gen'].update({'cpad': L, 'lay': 'std', 'eol': 'lf', 'cstyle': 'star'})
+    # magnitude: a share of the files of every group carries its covariance at another power of ten
+    QS = [None, None, None, 1e-9, None, 1e-12, None, None, 1e-15, None, 1e6, None, 1e-18]
+    for k, f in enumerate(files):
+        q = QS[(k + seed) % len(QS)]
+        if q and 'cpad' not in f['gen']:
+            f['gen']['qscale'] = q
     # clock offsets: consecutive edits walk through the enumerated clock configurations
     off = seed * 13
     for f in files:
@@ -546,8 +552,22 @@ def run_edit(h, ctx, m, in_lines, inpath, op, removed, clocks, sample=False):
     kind = 'list'
     if op == 'stns':
         kind = ['list', 'list', 'list', 'tuple', 'set', 'frozenset', 'dict-keys'][int(core.stable_hash([g['fseed'], list(removed)]), 16) % 7]
+    given = list(removed)
+    hh = int(core.stable_hash(['given', g['fseed'], list(removed)]), 16)
+    if op == 'stns' and kind in ('list', 'tuple') and removed and hh % 4 == 0:
+        # a station named more than once (two exclusion lists concatenated): the set of stations removed is the same
+        given = given + [given[(hh // 4) % len(given)]] * (1 + (hh // 64) % 2)
+        if (hh // 128) % 2:
+            given = given[::-1]
+        ctx.count('removal_lists_naming_a_station_more_than_once')
+    if op == 'stns' and hh % 9 == 1:
+        # ... or naming a station the file does not hold
+        given.insert((hh // 16) % (len(given) + 1), 'ZZ9Q')
+        ctx.count('removal_lists_naming_an_absent_station')
+    case['given'] = list(given)
     shared = {'list': list, 'tuple': tuple, 'set': set, 'frozenset': frozenset,
-              'dict-keys': lambda r: dict.fromkeys(r).keys()}[kind](removed)
+              'dict-keys': lambda r: dict.fromkeys(r).keys()}[kind](given)
+    shared_before = sorted(shared)
     case['container'] = kind
     if op == 'stns':
         ctx.count('stations_handed_over_as:' + kind)
@@ -558,7 +578,7 @@ def run_edit(h, ctx, m, in_lines, inpath, op, removed, clocks, sample=False):
         text, exc = h.edit(op, inpath, removed, c, removal_list=shared)
         if op == 'stns':
             ctx.count('calls_with_the_callers_own_list')
-            if sorted(shared) != sorted(removed) and not todo and not extra:
+            if sorted(shared) != shared_before and not todo and not extra:
                 # the call rewrote the caller's list: what the property promises is judged on the next call of the batch
                 ctx.count('removal_list_rewritten_by_call')
                 todo.append(c)
